@@ -68,6 +68,31 @@ pub fn check_pair(cx: &mut Cx, a: u64, b: u64) {
             }
         }
         chkb("iteration-members-ascending", got == members, true);
+        for k in [0usize, 1, members.len() / 2, members.len()] {
+            if k > members.len() {
+                continue;
+            }
+            let mk = || {
+                let mut it = ba.iter();
+                for _ in 0..k {
+                    it.next();
+                }
+                it
+            };
+            let rest = &members[k..];
+            chkb("iter-count-after-next", mk().count() == rest.len(), true);
+            let folded: Vec<usize> = mk().fold(Vec::new(), |mut v, s| {
+                v.push(s as usize);
+                v
+            });
+            chkb("iter-fold-after-next", folded == rest, true);
+            chkb("iter-last-after-next", mk().last().map(|s| s as usize) == rest.last().copied(), true);
+            for n in [0usize, 1, rest.len().saturating_sub(1), rest.len(), rest.len() + 2] {
+                let mut it = mk();
+                let g = it.nth(n).map(|s| s as usize);
+                chkb("iter-nth-after-next", g == rest.get(n).copied() && it.len() == rest.len().saturating_sub(n + 1), true);
+            }
+        }
         chkb("iteration-remaining-length", ok_len, true);
         let got2: Vec<usize> = ba.into_iter().map(|s| s as usize).collect();
         chkb("into_iter", got2 == members, true);
